@@ -8,7 +8,7 @@
    Model/ViewsVar.v.  For every type T: T_IsValid and the explicit table
    T_getters of ALL its zero-argument methods other than IsValid (the harness
    compares the table's names with the method set found by reflection). *)
-From PV Require Export Model.ViewsBase.
+From PV Require Export Model.ViewsBase Model.Checksum.
 Open Scope string_scope.
 Open Scope N_scope.
 Open Scope res_scope.
@@ -62,8 +62,13 @@ Definition IP4_IsValid (p : slice) : res bool :=
   c2 <- orr (Ok (n <? 20)) (ihl <- IP4_IHL_n p ;; Ok (n <? ihl)) ;;
   if c2 then Ok false else _ <- IP4_TotalLen_n p ;; Ok false.
 
+(* psh := make([]byte, 20); copy(psh[0:10], p[0:10]); copy(psh[10:18], p[12:20]); Checksum(psh) *)
+Definition IP4_CalculateChecksum : getter := fun p =>
+  a <- sl p 0 10 ;; b <- sl p 12 20 ;;
+  Ok (VN (checksum (firstn 10 (arr a) ++ firstn 8 (arr b) ++ [0; 0])%list)).
+
 Definition IP4_getters : gtable :=
-  [("Checksum", IP4_Checksum); ("Dst", IP4_Dst); ("FlagDontFragment", IP4_FlagDontFragment);
+  [("CalculateChecksum", IP4_CalculateChecksum); ("Checksum", IP4_Checksum); ("Dst", IP4_Dst); ("FlagDontFragment", IP4_FlagDontFragment);
    ("FlagMoreFragments", IP4_FlagMoreFragments); ("Flags", IP4_Flags); ("Fragment", IP4_Fragment);
    ("ID", IP4_ID); ("IHL", IP4_IHL); ("Payload", IP4_Payload); ("Protocol", IP4_Protocol);
    ("Src", IP4_Src); ("String", IP4_String); ("TOS", IP4_TOS); ("TTL", IP4_TTL);
@@ -117,3 +122,79 @@ Definition TCP_getters : gtable :=
    ("NS", TCP_NS); ("PSH", TCP_PSH); ("Payload", TCP_Payload); ("RST", TCP_RST); ("SYN", TCP_SYN);
    ("Seq", TCP_Seq); ("SrcPort", TCP_SrcPort); ("URG", TCP_URG); ("Urgent", TCP_Urgent);
    ("Window", TCP_Window)].
+
+(* ================================================================= *)
+(* ARP -- layer_arp.go:19-56 *)
+
+Definition ARP_HType : getter := fun p => rbe16 p 0.
+Definition ARP_Proto : getter := fun p => rbe16 p 2.
+Definition ARP_HLen : getter := fun p => rbyte p 4.
+Definition ARP_PLen : getter := fun p => rbyte p 5.
+Definition ARP_Operation : getter := fun p => rbe16 p 6.
+Definition ARP_SrcMAC : getter := fun p => rsl p 8 14.
+Definition ARP_SrcIP : getter := fun p => rarr p 14 4.
+Definition ARP_DstMAC : getter := fun p => rsl p 18 24.
+Definition ARP_DstIP : getter := fun p => rarr p 24 4.
+(* FastLog: Operation SrcMAC SrcIP DstMAC DstIP *)
+Definition ARP_String : getter := calls [ARP_Operation; ARP_SrcMAC; ARP_SrcIP; ARP_DstMAC; ARP_DstIP].
+(* len < 28 -> ErrFrameLen; HType != 1; Proto != 0x0800; HLen != 6; PLen != 4 *)
+Definition ARP_IsValid (p : slice) : res bool :=
+  if lenN p <? 28 then Ok false else
+  h <- be16_at p 0 ;; if negb (h =? 1) then Ok false else
+  pr <- be16_at p 2 ;; if negb (pr =? 2048) then Ok false else
+  hl <- idx p 4 ;; if negb (hl =? 6) then Ok false else
+  pl <- idx p 5 ;; if negb (pl =? 4) then Ok false else Ok true.
+
+Definition ARP_getters : gtable :=
+  [("DstIP", ARP_DstIP); ("DstMAC", ARP_DstMAC); ("HLen", ARP_HLen); ("HType", ARP_HType);
+   ("Operation", ARP_Operation); ("PLen", ARP_PLen); ("Proto", ARP_Proto); ("SrcIP", ARP_SrcIP);
+   ("SrcMAC", ARP_SrcMAC); ("String", ARP_String)].
+
+(* ================================================================= *)
+(* Ether -- layer_ethernet.go:64-180.  IP6.Src/Dst (layer_ip6.go:33-34) are needed by SrcIP/DstIP. *)
+
+Definition IP6_Src : getter := fun p => rarr p 8 16.
+Definition IP6_Dst : getter := fun p => rarr p 24 16.
+
+Definition Ether_Dst : getter := fun p => rsl p 0 6.
+Definition Ether_Src : getter := fun p => rsl p 6 12.
+Definition Ether_EtherType_n (p : slice) : res N := be16_at p 12.
+Definition Ether_EtherType : getter := fun p => rbe16 p 12.
+(* switch p.EtherType(): IP, IPV6, ARP -> 14; 8021Q -> 18; 8021AD -> 22; default 14 *)
+Definition Ether_HeaderLen_n (p : slice) : res nat :=
+  et <- Ether_EtherType_n p ;;
+  Ok (if et =? 33024 then 18%nat else if et =? 34984 then 22%nat else 14%nat).
+Definition Ether_HeaderLen : getter := fun p => n <- Ether_HeaderLen_n p ;; Ok (VN (N.of_nat n)).
+(* n := p.HeaderLen(); if len(p) > n { return p[n:] }; if len(p) == n { return p[n:cap(p)] }; return nil
+   -- as a located slice (the nested views of SrcIP/DstIP read it) *)
+Definition Ether_Payload_l (p : slice) : res (option lslice) :=
+  n <- Ether_HeaderLen_n p ;;
+  if Nat.ltb n (len p) then q <- slfrom p n ;; Ok (Some (mkL n q))
+  else if Nat.eqb (len p) n then q <- sl p n (cap p) ;; Ok (Some (mkL n q))
+  else Ok None.
+Definition Ether_Payload : getter := fun p =>
+  q <- Ether_Payload_l p ;; Ok (match q with Some l => lval l | None => VNil end).
+Definition nil_slice : slice := mkSlice [] 0.
+Definition Ether_Payload_s (p : slice) : res slice :=
+  q <- Ether_Payload_l p ;; Ok (match q with Some l => lsl l | None => nil_slice end).
+(* switch p.EtherType() { case IP: IP4(p.Payload()).Src(); case IPV6: IP6(p.Payload()).Src() }; netip.Addr{} *)
+Definition Ether_SrcIP : getter := fun p =>
+  et <- Ether_EtherType_n p ;;
+  if et =? 2048 then q <- Ether_Payload_s p ;; IP4_Src q
+  else if et =? 34525 then q <- Ether_Payload_s p ;; IP6_Src q
+  else Ok (VX []).
+Definition Ether_DstIP : getter := fun p =>
+  et <- Ether_EtherType_n p ;;
+  if et =? 2048 then q <- Ether_Payload_s p ;; IP4_Dst q
+  else if et =? 34525 then q <- Ether_Payload_s p ;; IP6_Dst q
+  else Ok (VX []).
+(* FastLog: EtherType Src Dst *)
+Definition Ether_String : getter := calls [Ether_EtherType; Ether_Src; Ether_Dst].
+Definition Ether_IsValid (p : slice) : res bool := Ok (14 <=? lenN p).
+
+Definition Ether_getters : gtable :=
+  [("Dst", Ether_Dst); ("DstIP", Ether_DstIP); ("EtherType", Ether_EtherType); ("HeaderLen", Ether_HeaderLen);
+   ("Payload", Ether_Payload); ("Src", Ether_Src); ("SrcIP", Ether_SrcIP); ("String", Ether_String)].
+
+(* unfold hints for the proof tactics (generated from the definitions above) *)
+#[global] Hint Unfold IP4_IHL IP4_Version IP4_Protocol IP4_TOS IP4_ID IP4_Flags IP4_FlagDontFragment IP4_FlagMoreFragments IP4_Fragment IP4_TTL IP4_Checksum IP4_Src IP4_Dst IP4_TotalLen IP4_Payload IP4_String IP4_CalculateChecksum UDP_SrcPort UDP_DstPort UDP_Len UDP_Checksum UDP_Payload UDP_HeaderLen UDP_String TCP_SrcPort TCP_DstPort TCP_Seq TCP_Ack TCP_HeaderLen TCP_NS TCP_FIN TCP_SYN TCP_RST TCP_PSH TCP_ACK TCP_URG TCP_ECE TCP_CWR TCP_Window TCP_Checksum TCP_Urgent TCP_Payload ARP_HType ARP_Proto ARP_HLen ARP_PLen ARP_Operation ARP_SrcMAC ARP_SrcIP ARP_DstMAC ARP_DstIP ARP_String IP6_Src IP6_Dst Ether_Dst Ether_Src Ether_EtherType Ether_HeaderLen Ether_Payload Ether_SrcIP Ether_DstIP Ether_String : vg.
